@@ -11,6 +11,7 @@ import TshVerif.Model.Cli
 import TshVerif.Model.Wf
 import TshVerif.Model.Typed
 import TshVerif.Model.StdStrings
+import TshVerif.Sem.Src
 
 open Tsh
 
@@ -96,6 +97,34 @@ def handleFullBash (args : List String) : String :=
       | .ok s => wfTag p.body ++ hexOfString s
       | .error _ => "ERR"
       | .panic _ => "PANIC"
+    | .error => "ERR"
+    | .panic => "PANIC"
+    | .diverge => "DIVERGE"
+
+/-- SEM: source files -> the two semantic models on the same program.
+    answer `SEM <src> <sh>`, each `U` (outside the fragment / out of fuel) or `<status>:<hex of stdout>` -/
+def semRes (r : Option (Sem.Out × List String)) : String :=
+  match r with
+  | none => "U"
+  | some (o, out) =>
+    let st := match o with
+      | .normal => "0"
+      | .exit k => toString k
+      | .brk => "brk"
+      | .cont => "cont"
+    st ++ ":" ++ hexOfString (String.join (out.map fun l => l ++ "\n"))
+
+def handleSem (args : List String) : String :=
+  match parseArgs args with
+  | none => "BADREQ"
+  | some (fs, m) =>
+    match Parser.parse fs m with
+    | .ok p _ =>
+      let src := semRes (Sem.Src.runProgram 200000 p.body)
+      let sh := match Bash.compile p.body with
+        | .ok ls => semRes (Sem.run 200000 ls)
+        | _ => "U"
+      "SEM " ++ src ++ " " ++ sh ++ (if Sem.Src.fragStmts p.body then " F" else " N")
     | .error => "ERR"
     | .panic => "PANIC"
     | .diverge => "DIVERGE"
@@ -211,6 +240,7 @@ def handle (line : String) : String :=
   if line.startsWith "STRS " then handleStr true ((line.drop 5).toString.splitOn " ") else
   if line.startsWith "FULLBATCH " then handleFullBatch ((line.drop 10).toString.splitOn " ") else
   if line.startsWith "CLI " then handleCli ((line.drop 4).toString.splitOn " ") else
+  if line.startsWith "SEM " then handleSem ((line.drop 4).toString.splitOn " ") else
   if line.startsWith "FULLBASH " then handleFullBash ((line.drop 9).toString.splitOn " ") else
   if line.startsWith "PARSE " then handleParse ((line.drop 6).toString.splitOn " ") else
   if line.startsWith "BASH " then handleBash (line.drop 5).toString else
